@@ -133,9 +133,20 @@ def observe (before : Nat) (s : State) : String :=
   let tp := evs.filterMap (fun e => match e with | .traced _ _ pp => some pp | _ => none)
   let ts := evs.filterMap (fun e => match e with | .traced o _ _ => some o | _ => none)
   let heap := (enumFrom 0 s.heap).filterMap (fun p => showObj p.1 p.2)
+  -- the public count API as seen through every handle the program holds
+  let cs := s.roots.map (fun o => match s.cell o with
+    | some ob => (match ob.strong with
+        | .cnt (n + 1) => s!"{n + 1}/{ob.weak - 1}"
+        | _ => "x")
+    | none => "x")
+  let ws := s.wroots.map (fun o => match s.cell o with
+    | some ob => (match ob.strong with
+        | .cnt (n + 1) => s!"{n + 1}/{ob.weak - 1}"
+        | _ => "0/0")
+    | none => "x")
   s!"obs D={showNats (sortNats d)} Dseq={showNats d} F={showNats (sortNats f)} R={showNats r} P={if p then 1 else 0} " ++
   s!"T={tc.length}/{tc.sum}/{tp.sum} Ts={showNats (sortNats ts)} E={showErr s.err} roots={showNats s.roots} wroots={showNats s.wroots} " ++
-  s!"vals={showNats (s.vals.map (·.vid))} raws={showNats s.raws} heap={" ".intercalate heap}"
+  s!"vals={showNats (s.vals.map (·.vid))} raws={showNats s.raws} C={",".intercalate cs} W={",".intercalate ws} heap={" ".intercalate heap}"
 
 
 end Cactus.Driver
